@@ -60,6 +60,13 @@ TransferAddrs(leaves, name) ==
    ELSE LET d == TransferDecode(name, Head(leaves).v) IN
         (IF d.ok THEN Named(d.v, "TransportLayerAddress") ELSE << [k |-> "undecodable", v |-> <<>>, nbits |-> 0] >>) \o TransferAddrs(Tail(leaves), name)
 
+\* <<AMF-UE-NGAP-ID or -1, RAN-UE-NGAP-ID or -1>> of every item of the reset type's connection list (identifier 88)
+IdOrAbsent(item, name) == LET f == Fld(item, name) IN IF f.present THEN (IF "n" \in DOMAIN Leaf(f.v).v THEN Leaf(f.v).v.n ELSE -3) ELSE -1
+ConnPairs(ies) ==
+   LET f == FindIe(ies, 88) IN
+   IF ~f.found \/ IeVal(f.ie).k # "choice" \/ IeVal(f.ie).v.k # "seq" THEN << <<-2, -2>> >>
+   ELSE LET lst == Fld(IeVal(f.ie).v, "List").v.v IN
+        [i \in 1..Len(lst) |-> <<IdOrAbsent(lst[i], "AMFUENGAPID"), IdOrAbsent(lst[i], "RANUENGAPID")>>]
 CheckArgs(e, t) ==
    LET a == e.args
        ies == PduIEs(t)
@@ -81,6 +88,8 @@ CheckArgs(e, t) ==
                                    Len(g) # 1 \/ g[1].nbits # a.gnbBits \/ g[1].v # a.gnbId
             THEN {"gNB id in the encoding is not the argument"} ELSE {})
       \cup (IF Has2(a, "name") /\ IeOctets(ies, Ie.RANNodeName) # a.name THEN {"RAN node name in the encoding is not the argument"} ELSE {})
+      \* NG RESET of part of the interface: the connection items, identifier by identifier (-1 = absent)
+      \cup (IF Has2(a, "conns") /\ ConnPairs(ies) # a.conns THEN {"the UE-associated logical NG connections in the encoding are not the given ones: " \o Str(ConnPairs(ies))} ELSE {})
 
 \* TS 38.413 9.4.5 constraints of the information elements the emulator fills in, checked on the decoded leaves
 \* (the decoder copies the constraints of the tag schema into the value tree): a wrong struct tag shows up here
